@@ -16,4 +16,14 @@ VARIANTS = [
     SV("counter-not-incremented", P, "PSyDataTrans.get_unique_region_name",
        "PSyDataTrans._used_kernel_names[key] = idx + 1", "PSyDataTrans._used_kernel_names[key] = idx", "fires:C28.R3"),
     V("twin-tuple-order", E, "        CodeBlock, ExtractNode, HaloExchange, GlobalSum)", "        ExtractNode, CodeBlock, HaloExchange, GlobalSum)", "silent"),
+    V("defaults-merged-into-the-callers-dictionary", "src/psyclone/psyir/transformations/psy_data_trans.py",
+      "        new_options = self.get_default_options()\n        if options:\n            # Update will overwrite any existing setting with the ones\n            # specified by the user:\n            new_options.update(options)\n        return new_options",
+      "        if not options:\n            return self.get_default_options()\n        for key, value in self.get_default_options().items():\n            options.setdefault(key, value)\n        return options",
+      "fires:C28.R5"),
+    V("defaults-merged-into-a-copy", "src/psyclone/psyir/transformations/psy_data_trans.py",
+      "        new_options = self.get_default_options()\n        if options:\n            # Update will overwrite any existing setting with the ones\n            # specified by the user:\n            new_options.update(options)\n        return new_options",
+      "        merged = dict(options) if options else {}\n        for key, value in self.get_default_options().items():\n            merged.setdefault(key, value)\n        return merged",
+      "silent"),
+    V("extract-options-aliased", "src/psyclone/domain/lfric/transformations/lfric_extract_trans.py",
+      "            my_options = options.copy()", "            my_options = options", "fires:C28.R5"),
 ]
